@@ -395,6 +395,33 @@ def rule_pg_ops_column_key(spec, ospecs, res):
     return n
 
 
+def rule_pg_ops_lightweight_column(spec, ospecs, res):
+    # an index member given as sqlalchemy.column('a b') (a ColumnClause that is not a table column) is rendered as
+    # sa.literal_column('"a b"'), the compiled (quoted) text: its key is no longer 'a b', so postgresql_ops={'a b': ...}
+    # matches nothing in the executed code and the operator class is lost (only when the name needs quoting)
+    if res["dialect"] != "postgresql":
+        return None
+    pairs = []
+    for o in ospecs:
+        if o["kind"] != "create_index":
+            continue
+        ix = spec["tables"][o["table"]]["indexes"][o["index"]]
+        pops = (ix.get("kw") or {}).get("postgresql_ops") or {}
+        for e in ix["elems"]:
+            if "lwcol" in e and e["lwcol"] in pops:
+                pairs.append((e["lwcol"], pops[e["lwcol"]]))
+    if not pairs:
+        return None
+
+    def n(s):
+        for name, opclass in pairs:
+            for nm in sorted({v.replace('"', '""') for v in (name, name.replace("%", "%%"), name.replace("\t", "    "))}, key=len, reverse=True):
+                s = re.sub(r"(\"%s\") %s\b" % (re.escape(nm), re.escape(opclass)), "\\1", s)
+        return s
+
+    return n
+
+
 # exec raises / invoke raises: (finding id, predicate)
 def err_exclude_expression(spec, ospecs, res):
     # CreateExcludeConstraintOp.to_constraint appends Column(name, NULLTYPE) for every element: name is None for an expression
@@ -451,6 +478,7 @@ RULES = [
     ("C08-N12-column-index-unique-flag-not-rendered", rule_column_flag),
     ("C08-N16-fk-target-key-emitted-by-invoke", rule_fk_target_key),
     ("C08-N18-postgresql-ops-keyed-by-column-key-lost", rule_pg_ops_column_key),
+    ("C08-N19-postgresql-ops-on-lightweight-column-lost", rule_pg_ops_lightweight_column),
     ("C08-N17-fk-target-loses-metadata-schema-on-invoke", rule_fk_metadata_schema),
     ("C08-N6-add-column-primary-key-not-rendered", rule_pk_add_column),
     ("C08-N8-quote-flag-dropped", rule_quote_flag),
